@@ -48,7 +48,7 @@ def _raised_in_harness(e):
     while tb is not None:
         last = tb.tb_frame.f_code.co_filename
         tb = tb.tb_next
-    if last is None:
+    if last is None or "/rtflite/" in last:
         return False
     return "/vf/" in last or "/h_" in last or "vf-" in last or "<string>" in last
 
